@@ -137,7 +137,36 @@ def ops_panel(w, p):
         call = W.calls[0]
         return {'A': call['A'], 'M': call['M']}
 
+    def plot():
+        # Panel.plot with a deformed contour on caller-supplied grids; matplotlib replaced by an inert stand-in (what is drawn is not
+        # the subject: what the call does to the object and to the caller's arrays is)
+        import sys, types
+
+        class Inert:
+            def __getattr__(self, name):
+                return Inert()
+
+            def __call__(self, *a, **k):
+                return Inert()
+        fakes = {'matplotlib': types.ModuleType('matplotlib'), 'matplotlib.pyplot': types.ModuleType('matplotlib.pyplot')}
+        fakes['matplotlib'].axes = Inert()
+        fakes['matplotlib'].pyplot = fakes['matplotlib.pyplot']
+        for nm_ in ('figure', 'colorbar', 'close', 'savefig'):
+            setattr(fakes['matplotlib.pyplot'], nm_, Inert())
+        saved = {k_: sys.modules.get(k_) for k_ in fakes}
+        sys.modules.update(fakes)
+        try:
+            p.plot(c, xs=xs, ys=ys, deform_u=True, deform_u_sf=ctx.V('deform_sf'), vecmin=0., vecmax=1., num_levels=2, save=False)
+        finally:
+            for k_, v_ in saved.items():
+                if v_ is None:
+                    sys.modules.pop(k_, None)
+                else:
+                    sys.modules[k_] = v_
+        return {}
+
     table = {
+        'plot': plot,
         'get_size': lambda: p.get_size(),
         'calc_k0': lambda: p.calc_k0(silent=True),
         'calc_kG0': lambda: p.calc_kG0(silent=True),
@@ -154,7 +183,7 @@ def ops_panel(w, p):
         'freq': freq,
     }
     if p.model is not None and 'kpanel' in str(p.model) or getattr(p, 'alphadeg', None) is not None:
-        for k in ('calc_kA', 'calc_cA', 'calc_fint', 'calc_kT', 'strain', 'stress', 'uvw', 'freq'):
+        for k in ('calc_kA', 'calc_cA', 'calc_fint', 'calc_kT', 'strain', 'stress', 'uvw', 'freq', 'plot'):
             table.pop(k, None)
     return table, guard
 
@@ -355,6 +384,10 @@ def configs(tier, seed):
                     fs = ['calc_k0']
                 for first in sorted(set(fs) & set(mops)):
                     out.append({'model': model, 'm': mm, 'n': 1, 'first': first, 'redef': redef, 'last': last, 'group': 'redefinition-%s:%s' % (redef, model)})
+    # a plot (deformed contour on the caller's own grid) before a field query on the same grid
+    for model in ('plate', 'cpanel'):
+        for last in ('uvw', 'strain', 'calc_k0'):
+            out.append({'model': model, 'm': 2, 'n': 1, 'first': 'plot', 'redef': 'none', 'last': last, 'group': 'pair-after-plot:%s' % model})
     # conical panel: the matrices follow the current cone angle / radius, whichever matrix is asked for first
     kops = ['get_size', 'calc_k0', 'calc_kG0', 'calc_kM']
     for last in kops:
